@@ -45,7 +45,7 @@ def or_constants(v, phi_local):
 def flag_sets(ctx, s, fn, var):
     """[(block, stmt, [consts], facts)] for every `var |= const` in fn; plus the initial value"""
     an = ctx.E.an(fn)
-    loc = [i for i, l in enumerate(fn.locals) if l.get("n") == var]
+    loc = [i for i, l in enumerate(fn.locals) if l.get("n") == var and "inl" not in l]
     from ..main import AnalysisError
     if len(loc) != 1:
         raise AnalysisError("flags variable %s not found in %s" % (var, fn.nice))
@@ -406,16 +406,20 @@ def skipper_first_set(ctx, s):
 
 
 def fallthrough_skips_member(ctx, s, parser):
-    """the unknown-member arm consumes name, colon and value: burn_string, colon, burn_value in order"""
+    """the unknown-member arm consumes name, colon and value: every value-feasible path to the burn_value call runs
+    through a successful burn_string (rest of the name) and then a successful eat_colon_with_whitespace"""
     fn = ctx.fn(parser)
     an = ctx.E.an(fn)
     bv = [(b, i) for b, i in an.calls() if s.nice(i["callee"] or "") == JP + "burn_value"]
+    bs_ok = [n for b, i in an.calls() if s.nice(i["callee"] or "") == JP + "burn_string" for n in s.ok_edges_of_call(fn, b)]
+    co_ok = [n for b, i in an.calls() if s.nice(i["callee"] or "") == JP + "eat_colon_with_whitespace" for n in s.ok_edges_of_call(fn, b)]
     ok = False
     for b, info in bv:
-        doms = an.cfg.dominators(b)
-        names = [s.nice(an.term[d]["callee"] or "").split("::")[-1] for d in doms if d in an.term and an.term[d]["kind"] == "call" and an.term[d].get("callee")]
-        # nearest first
-        if "eat_colon_with_whitespace" in names and "burn_string" in names and names.index("eat_colon_with_whitespace") < names.index("burn_string"):
+        name_first = bool(bs_ok) and s.must_pass(fn, b, bs_ok)
+        colon = bool(co_ok) and s.must_pass(fn, b, co_ok)
+        # after the name, the value is reached only through the colon
+        after = b not in s.reach(fn, bs_ok, avoid=co_ok) if bs_ok else False
+        if name_first and colon and after:
             ok = True
     s.add("S-ORDER", fn, "unknown-member-skipped", parser.split("::")[-1], fn.sp, PROVED if ok else VIOLATION,
           "unknown members are skipped: rest of the name, colon, then the value" if ok else
